@@ -1,8 +1,188 @@
+/-
+C04 — chunked upload through client, server and buffer.
+
+For every chunk size, every partition of the content into writes and every
+admissible pattern of close-and-resume (explicit offset or asked offset), the
+buffer behind the server ends up holding exactly the concatenation of the
+written bytes, and the commit with the digest of that content succeeds; a chunk
+at a wrong offset and a commit with a wrong digest are refused.
+
+The exclusion (`Admissible`): the client does not ask the registry for the offset
+(`closeResumeAsk`) at the moment exactly one byte has been received — the answer
+`0-0` then reads as "nothing received" (`askedOffset_one`), and
+`excluded_case_counterexample` shows that the upload then fails.
+
+`H` (the content hash) is a parameter: nothing is assumed about it.
+Proofs of the helper lemmas are in `OciModel/UploadLemmas.lean`.
+-/
 import OciModel.Upload
+import OciModel.UploadLemmas
 namespace OciModel.Props.C04
 open OciModel.Upload OciModel.ReqCodec
 
+/-! ### U0 — the Content-Range codec is exact on what the writer sends -/
+
+/-- The server recovers `(s, s+n)` from the header the client prints for the chunk
+`[s, s+n)` and a Content-Length of `n`: for all `s, n ≥ 0`, including the first single
+byte (`0-0`, Content-Length 1) and empty chunks. -/
+theorem chunkRange_exact {s n : Int} (hs : 0 ≤ s) (hn : 0 ≤ n) :
+    chunkRange (some (rangeString s (s + n))) n = some (s, s + n) :=
+  Upload.chunkRange_exact hs hn
+
+/-- Asking for the offset returns the number of bytes received, except after exactly one byte. -/
+theorem askedOffset_eq {n : Nat} (h : n ≠ 1) : askedOffset n = n := Upload.askedOffset_eq h
+
 /-- Asking for the offset after exactly one byte yields 0: the exclusion in the property. -/
 theorem askedOffset_one : askedOffset 1 = 0 := by decide
+
+/-! ### U1 — one flush under the invariant -/
+
+/-- `Inv w sv`: the server buffer holds exactly the bytes the writer has flushed; no sticky error. -/
+example (w : CW) (sv : Srv) : Inv w sv ↔ (sv.buf.length = w.flushed ∧ sv.poisoned = false) := Iff.rfl
+
+/-- A non-empty flush appends exactly `w.chunk ++ extra` to the server buffer, advances
+`flushed` by its length, and re-establishes the invariant. -/
+theorem flush_exact (H : Bytes → Bytes) {w : CW} {sv : Srv} (h : Inv w sv) (extra : Bytes)
+    (hne : w.chunk ++ extra ≠ []) :
+    flush H w sv extra none =
+      .ok ({ w with flushed := w.flushed + (w.chunk ++ extra).length, chunk := [] },
+           { sv with buf := sv.buf ++ w.chunk ++ extra },
+           [BOp.resume w.flushed, BOp.write (w.chunk ++ extra).length]) ∧
+    Inv { w with flushed := w.flushed + (w.chunk ++ extra).length, chunk := [] }
+        { sv with buf := sv.buf ++ w.chunk ++ extra } := by
+  refine ⟨?_, inv_flushed h extra⟩
+  rw [flush_none_nonempty H h extra hne]; simp [flushedW, flushedS, flushLog, hne]
+
+/-- A flush with nothing to send makes no request. -/
+theorem flush_empty (H : Bytes → Bytes) (w : CW) (sv : Srv) (extra : Bytes)
+    (he : w.chunk ++ extra = []) : flush H w sv extra none = .ok (w, sv, []) :=
+  flush_none_empty H w sv extra he
+
+/-! ### U2 — admissible scripts run to completion and deliver exactly the written bytes -/
+
+/-- `Admissible` from the initial state, in words: before each `closeResumeAsk`, the total
+number of bytes written so far is not 1. -/
+theorem admissible_start_iff (c : Nat) (ops : List Op) :
+    Admissible (start c) ⟨[], false⟩ ops ↔
+      ∀ pre post, ops = pre ++ Op.closeResumeAsk :: post → (written pre).length ≠ 1 := by
+  simpa [Admissible, received, start] using admFrom_iff ops 0
+
+/-- From any state in which the invariant holds and `Size()` is the number of bytes written,
+an admissible script succeeds; afterwards the invariant holds, server buffer plus pending
+chunk have grown by exactly the written bytes, and `Size()` is still the number of bytes written. -/
+theorem run_ok (H : Bytes → Bytes) {w : CW} {sv : Srv} (ops : List Op)
+    (hinv : Inv w sv) (hsize : w.size = sv.buf.length + w.chunk.length)
+    (hadm : Admissible w sv ops) :
+    ∃ w' sv' log, run H w sv ops = .ok (w', sv', log) ∧ Inv w' sv' ∧
+      sv'.buf ++ w'.chunk = sv.buf ++ w.chunk ++ written ops ∧
+      w'.size = sv'.buf.length + w'.chunk.length ∧ w'.chunkSize = w.chunkSize := by
+  obtain ⟨w', sv', log, hr, hg, hk, hb⟩ := run_spec H ops ⟨hinv, hsize⟩ hadm
+  exact ⟨w', sv', log, hr, hg.1, hb, hg.2, hk⟩
+
+/-- The hypothesis on `Size()` in `run_ok` is needed: a writer whose size is off resumes
+at a wrong offset and its next chunk is refused. -/
+example : Inv ⟨[], 5, 0, 4⟩ ⟨[], false⟩ ∧
+    run (fun b => b) ⟨[], 5, 0, 4⟩ ⟨[], false⟩ [.closeResumeExplicit, .write [1, 2, 3, 4, 5]]
+      = .error .rangeInvalid := by decide
+
+/-! ### U3 — the property -/
+
+/-- Every chunk size, every partition of the content into writes, every admissible pattern of
+close-and-resume in either mode: the run succeeds, the commit with the digest of the written
+bytes succeeds, and the server buffer is then exactly the written bytes. -/
+theorem chunked_commit_exact (H : Bytes → Bytes) (c : Nat) (ops : List Op)
+    (hadm : Admissible (start c) ⟨[], false⟩ ops) :
+    ∃ w' sv' log sv'' log', run H (start c) ⟨[], false⟩ ops = .ok (w', sv', log) ∧
+      commit H w' sv' (H (written ops)) = .ok (sv'', log') ∧
+      sv''.buf = written ops ∧ w'.size = (written ops).length := by
+  obtain ⟨w', sv', log, hr, hg, -, hb⟩ := run_spec H ops (good_start c) hadm
+  have hb' : sv'.buf ++ w'.chunk = written ops := by simpa [start] using hb
+  refine ⟨w', sv', log, { sv' with buf := sv'.buf ++ w'.chunk }, flushLog w' [] ++ [BOp.commit],
+    hr, ?_, hb', ?_⟩
+  · rw [commit_spec H hg.1, hb', if_pos rfl]
+  · rw [← hb', List.length_append]; exact hg.2
+
+/-- Scripts that never ask for the offset are always admissible (so the property covers every
+partition and every pattern of explicit resumes without exception). -/
+theorem admissible_of_no_ask (w : CW) (sv : Srv) (ops : List Op)
+    (h : Op.closeResumeAsk ∉ ops) : Admissible w sv ops := by
+  refine (admFrom_iff ops _).mpr ?_
+  intro pre post heq
+  exact absurd (heq ▸ List.mem_append_right pre List.mem_cons_self) h
+
+/-! ### U4 — a chunk at a wrong offset is refused -/
+
+theorem wrong_offset_refused (H : Bytes → Bytes) (sv : Srv) (hdr : Int × Int) (body : Bytes)
+    (commit : Option Bytes) {st e : Int} (hb : body ≠ [])
+    (hr : chunkRange (some hdr) body.length = some (st, e)) (hne : (sv.buf.length : Int) ≠ st) :
+    serverChunk H sv hdr body commit = .error .rangeInvalid :=
+  serverChunk_wrong_offset H sv hdr body commit hb hr hne
+
+/-- In client terms: a writer whose `flushed` is not what the server holds fails its next
+non-empty flush (PATCH or final PUT). -/
+theorem stale_writer_refused (H : Bytes → Bytes) (w : CW) (sv : Srv) (extra : Bytes)
+    (commit : Option Bytes) (hne : w.chunk ++ extra ≠ []) (hoff : sv.buf.length ≠ w.flushed) :
+    flush H w sv extra commit = .error .rangeInvalid :=
+  flush_wrong_offset H w sv extra commit hne hoff
+
+/-! ### U5 — a commit with a wrong digest is refused -/
+
+theorem wrong_digest_refused (H : Bytes → Bytes) {w : CW} {sv : Srv} (h : Inv w sv) (d : Bytes)
+    (hd : d ≠ H (sv.buf ++ w.chunk)) : commit H w sv d = .error .digestInvalid := by
+  rw [commit_spec H h, if_neg (fun e => hd e.symm)]
+
+/-- and with the right one it succeeds, storing buffer plus pending chunk -/
+theorem right_digest_accepted (H : Bytes → Bytes) {w : CW} {sv : Srv} (h : Inv w sv) :
+    ∃ log, commit H w sv (H (sv.buf ++ w.chunk)) = .ok ({ sv with buf := sv.buf ++ w.chunk }, log) := by
+  rw [commit_spec H h, if_pos rfl]; exact ⟨_, rfl⟩
+
+/-! ### U6 — the exclusion is necessary -/
+
+/-- One byte, ask for the offset (the registry says `0-0`, read as 0), one more byte: refused. -/
+theorem excluded_case_counterexample :
+    run (fun b => b) (start 4) ⟨[], false⟩
+      [.write [1], .closeResumeAsk, .write [2], .closeResumeExplicit] = .error .rangeInvalid := by
+  decide
+
+example : ¬ Admissible (start 4) ⟨[], false⟩
+    [.write [1], .closeResumeAsk, .write [2], .closeResumeExplicit] := by decide
+
+/-! ### U7 — every resume names the number of bytes received so far -/
+
+/-- In the backend log of an admissible run from the initial state, every `Resume(o)` with a
+definite offset names exactly the number of bytes handed to the buffer before it, and the
+buffer holds exactly the bytes the log wrote. -/
+theorem resume_offsets_exact (H : Bytes → Bytes) (c : Nat) (ops : List Op)
+    (hadm : Admissible (start c) ⟨[], false⟩ ops) {w' : CW} {sv' : Srv} {log : List BOp}
+    (hr : run H (start c) ⟨[], false⟩ ops = .ok (w', sv', log)) :
+    LogExact 0 log ∧ sv'.buf.length = logBytes log := by
+  simpa using run_log H ops (good_start c) hadm hr
+
+/-! ### Concrete scripts (toy hash: identity) -/
+
+/-- chunk size 4, writes of 3+3+1+2 bytes with an explicit and an asked resume in between -/
+example :
+    run (fun b => b) (start 4) ⟨[], false⟩
+      [.write [1, 2, 3], .write [4, 5, 6], .write [7], .closeResumeExplicit, .write [8, 9],
+       .closeResumeAsk]
+    = .ok (⟨[], 9, 9, 4⟩, ⟨[1, 2, 3, 4, 5, 6, 7, 8, 9], false⟩,
+        [.resume 0, .write 6, .resume 6, .write 1, .resume 7, .write 2, .resume (-1)]) := by decide
+
+/-- chunk size 0: every write is sent at once; the final PUT is empty -/
+example :
+    (run (fun b => b) (start 0) ⟨[], false⟩ [.write [1], .write [2, 3], .closeResumeExplicit]).toOption.map
+      (fun r => (r.2.1.buf, commit (fun b => b) r.1 r.2.1 [1, 2, 3]))
+    = some ([1, 2, 3], .ok (⟨[1, 2, 3], false⟩, [.resume 3, .commit])) := by decide
+
+/-- asking after 0 and after 2 bytes is fine; the content is committed from the pending chunk -/
+example :
+    (run (fun b => b) (start 8) ⟨[], false⟩
+      [.closeResumeAsk, .write [9], .write [8], .closeResumeAsk, .write [7]]).toOption.map
+      (fun r => commit (fun b => b) r.1 r.2.1 [9, 8, 7])
+    = some (.ok (⟨[9, 8, 7], false⟩, [.resume 2, .write 1, .commit])) := by decide
+
+/-- a wrong digest is refused -/
+example :
+    commit (fun b => b) ⟨[3], 3, 2, 4⟩ ⟨[1, 2], false⟩ [1, 2, 4] = .error .digestInvalid := by decide
 
 end OciModel.Props.C04
